@@ -1381,6 +1381,20 @@ impl Core {
 		// transaction's snapshot seq (used by the oracle's write-write
 		// conflict check). The write keys are derived from `batch.entries`
 		// inside the pipeline — no duplicated parallel array.
+
+		// A batch whose payload alone exceeds a whole memtable can never be
+		// applied. Reject it before anything is logged: once its record is in
+		// the commit log a failed apply cannot take it back, commit() would
+		// return an error and the next recovery would still replay it.
+		let payload: usize = batch
+			.entries
+			.iter()
+			.map(|e| e.key.len() + e.value.as_ref().map_or(0, |v| v.len()))
+			.sum();
+		if payload > self.inner.opts.max_memtable_size {
+			return Err(Error::ArenaFull);
+		}
+
 		self.commit_pipeline.commit(batch, sync, start_seq).await
 	}
 
